@@ -1414,8 +1414,9 @@ class ExecutionTracer(AbstractExecutionTracer):  # noqa: PLR0904
                 if isinstance(value, Sized):
                     # Sized instances evaluate to False if they are empty,
                     # and to True otherwise, thus we can use their size as a distance
-                    # measurement.
-                    distance_false = len(value)
+                    # measurement.  A truthy instance of size 0 (its __bool__ does not
+                    # follow its __len__) is infinitely far from the false branch.
+                    distance_false = len(value) or inf
                 elif is_numeric(value):
                     # For numeric value, we can use their absolute value
                     distance_false = _numeric_gap(value, 0)
